@@ -15,7 +15,9 @@
    (LoopSigSpec: snapshot semantics with no errno, no revents table, no pending set).  This
    refinement is NOT proved here; it is checked on every run by the correspondence
    (implementation = model = specification on all generated cases).  Proved instead:
-   C18_signal_reaches (nothing the handler recorded survives an iteration -- which is exactly
+   C18_interrupted_iteration_dispatches + C18_all_watchers_invoked (every watcher of a recorded
+   signal is invoked once, in order -- for signal callbacks that leave the signal watch list
+   alone; with cancelling callbacks only C18_cancelled_not_invoked is proved), C18_signal_reaches (nothing the handler recorded survives an iteration -- which is exactly
    what fails on the pinned code), C18_kernel_pending_delivered, C18_cancelled_not_invoked,
    C18_poll_reports / C18_new_slot_silent (the two halves of "exactly the conditions reported
    for their descriptor"), and the two refutations of the pinned behaviour. *)
@@ -31,6 +33,28 @@ Theorem C18_signal_reaches : forall env fuel ops s',
   srun_ops fixed_cfg env fuel ops = Some s' -> pending s' = [].
 Proof. exact signal_reaches. Qed.
 Print Assumptions C18_signal_reaches.
+
+(* an iteration whose ppoll was interrupted reaches dispatch_signals -- after the deferred
+   callbacks, whatever they did to errno -- with everything the handler recorded ... *)
+Theorem C18_interrupted_iteration_dispatches : forall env fuel sleep s s2,
+  ppoll (before_poll sleep s) = (-1, s2) ->
+  stick fixed_cfg env fuel sleep s = dispatch_signals fixed_cfg env fuel (invoke_laters fixed_cfg env s2) /\
+  pending (invoke_laters fixed_cfg env s2) = pending s2.
+Proof. exact stick_interrupted. Qed.
+Print Assumptions C18_interrupted_iteration_dispatches.
+
+(* ... and dispatch_signals invokes every callback watching a recorded signal exactly once,
+   signals ascending, watchers in registration (list) order -- proved for signal callbacks that
+   do not themselves cancel or register signal watches (they may set errno, raise signals,
+   register deferred callbacks and IO watches); the deferred callbacks before it are arbitrary *)
+Theorem C18_all_watchers_invoked : forall c env fuel s,
+  NoDup (map g_id (sgws s)) ->
+  (forall v, In v (sgws s) -> forallb sig_quiet (env (g_cb v)) = true) ->
+  (length (sgws s) + 1 < fuel)%nat ->
+  exists s', dispatch_signals c env fuel s = Some s' /\
+             slog s' = rev (invoked s (sort_z (pending s))) ++ slog s /\ pending s' = [] /\ sgws s' = sgws s.
+Proof. exact dispatch_invokes_all. Qed.
+Print Assumptions C18_all_watchers_invoked.
 
 (* a ppoll that reports no ready descriptor leaves nothing pending in the kernel *)
 Theorem C18_kernel_pending_delivered : forall s ret s1, ppoll s = (ret, s1) -> ret <= 0 -> kpend s1 = [].
